@@ -33,6 +33,9 @@ use std::time::{Duration, Instant};
 /// harness profile keeps debug assertions on. The bits are passed to the model as a parameter.
 const RATE_DEBUG: f64 = 10_000_000.0;
 const RATE_RELEASE: f64 = 100_000_000.0;
+/// bound on the first interval (`first_interval_instruction_count.min(100.0)`, 0c1b674); passed to
+/// the model as a parameter — the H4 correspondence compares the first interval exactly
+const FIRST_INTERVAL_CAP: f64 = 100.0;
 
 const PROBE_SCRIPT: &str = "f = |n| (1..=n).fold 0, |a, b| a + b\nx = 0\nfor i in 0..5\n  x += f i\n'{x}:{f 10}'";
 const PROBE_EXPECT: &str = "20:55";
@@ -1087,7 +1090,7 @@ struct Snap {
 /// four times the legitimate duration instead of hanging.
 fn h4_max_calls(rate: f64, limit_ms: u64, work: usize) -> usize {
     let limit_ns = limit_ms as usize * 1_000_000;
-    let i0 = (rate * (limit_ms as f64 / 10_000.0)) as usize;
+    let i0 = (rate * (limit_ms as f64 / 10_000.0)).min(FIRST_INTERVAL_CAP) as usize;
     4 * (i0 + 1 + limit_ns / (1 + work)) + 1000
 }
 
@@ -1113,7 +1116,7 @@ fn parse_h4(s: &str) -> Option<Vec<Snap>> {
 /// (timed-out) poll the reading taken by the probe right after the call (the poller's own reading
 /// is not stored on a timeout; it lies between the deadline and this value).
 fn trace_request(rate_bits: u64, limit_ns: u128, snaps: &[Snap]) -> String {
-    let mut s = format!("trace {:016x} {}", rate_bits, limit_ns);
+    let mut s = format!("trace {:016x} {:016x} {}", rate_bits, FIRST_INTERVAL_CAP.to_bits(), limit_ns);
     for sn in &snaps[1..] {
         s.push_str(&format!(" {}", if sn.timed_out { sn.probe } else { sn.last }));
     }
@@ -1617,7 +1620,7 @@ fn main() {
                         json!({"what": "hook H4 did not return (poller never reported a timeout within the call budget, or the worker died)",
                                "limit_ms": l, "work_per_call": work, "result": format!("{:?}", r)}),
                     );
-                    reqs.push("new 0000000000000000 0 0".into());
+                    reqs.push("new 0000000000000000 0000000000000000 0 0".into());
                     parsed.push(None);
                 }
             }
